@@ -15,6 +15,7 @@ import LibfiberVerif.Model.Sched
 import LibfiberVerif.Model.Mutex
 import LibfiberVerif.Model.Cond
 import LibfiberVerif.Model.Join
+import LibfiberVerif.Model.JoinCas
 import LibfiberVerif.Model.Rt
 import LibfiberVerif.Model.Sem
 import LibfiberVerif.Model.Barrier
@@ -41,7 +42,7 @@ def registry : List (String × (List String → IO UInt32)) := [
   ("Stack", Stack.drive),
   ("Sched", Sched.drive),
   ("Mutex", Mutex.drive), ("Cond", Cond.drive),
-  ("Join", Join.drive),
+  ("Join", Join.drive), ("JoinCas", JoinCas.drive),
   ("Rt", Rt.drive),
   ("Sem", Sem.drive),
   ("Barrier", Barrier.drive),
